@@ -246,6 +246,16 @@ def _r04c(rep):
     rep.instance("R04c", CELLS, "Supercell._get_simple_supercell", "determinant of the inverse transformation is required to be 1", ok2, "the unimodularity assertion on the SNF transformation vanished", line=fn.lineno)
 
 
+_run_main = run
+
+
+def run(rep: core.Report):
+    from rules import shared_trunc
+
+    _run_main(rep)
+    shared_trunc.run(rep, "R04f")
+
+
 def selftest():
     V = []
     b = lambda name, file, old, new, rule, expect="", **kw: V.append(dict(name=name, kind="break", file=file, old=old, new=new, rule=rule, expect=expect, **kw))
@@ -268,4 +278,7 @@ def selftest():
     b("shortest vectors converted with inv(primitive matrix) untransposed", CELLS, "        trans_mat_float = np.dot(supercell_bases, np.linalg.inv(primitive_bases))", "        trans_mat_float = np.linalg.inv(self._primitive_matrix)", "R04a", "_get_smallest_vectors")
     n("shortest vectors converted with inv(primitive matrix) transposed", CELLS, "        trans_mat_float = np.dot(supercell_bases, np.linalg.inv(primitive_bases))", "        trans_mat_float = np.linalg.inv(self._primitive_matrix).T")
     n("dot written as matmul", CELLS, "            cart_diffs = np.dot(frac_diffs, self.cell)", "            cart_diffs = frac_diffs @ self.cell")
+    from rules import shared_trunc
+
+    shared_trunc.variants(b, None, "R04f")
     return V
